@@ -179,7 +179,7 @@ func (g *gen) ladder(settings []string) (Input, [][]string) {
 // prefixes; now and then a path of another spine.
 func (g *gen) workersOn(spines [][]string, settings []string, extra []Query) *Parallel {
 	r := g.r
-	p := &Parallel{Rounds: r.Range(150, 400)}
+	p := &Parallel{Rounds: g.rounds()}
 	for w, nw := 0, r.Range(3, 8); w < nw; w++ {
 		sp := spines[w%len(spines)]
 		var qs []Query
@@ -207,6 +207,16 @@ func (g *gen) workersOn(spines [][]string, settings []string, extra []Query) *Pa
 		p.Workers = append(p.Workers, qs)
 	}
 	return p
+}
+
+// rounds: 150-400 repetitions; one round in eight is a long one (ten times as many), for machines
+// where few threads run at the same time.
+func (g *gen) rounds() int {
+	n := g.r.Range(150, 400)
+	if g.r.Chance(1, 8) {
+		n *= 10
+	}
+	return n
 }
 
 func spinesOf(leaves []Leaf) [][]string {
@@ -272,12 +282,12 @@ func (g *gen) parallel() Input {
 	default: // a history; the last phase ends with a concurrent round
 		in := g.history()
 		if len(in.Later) == 0 {
-			in.Parallel = &Parallel{Rounds: r.Range(150, 400), Workers: [][]Query{in.Queries, in.Queries, in.Queries}}
+			in.Parallel = &Parallel{Rounds: g.rounds(), Workers: [][]Query{in.Queries, in.Queries, in.Queries}}
 			return in
 		}
 		last := &in.Later[len(in.Later)-1]
 		asked := append(append([]Query{}, in.Queries...), last.Queries...)
-		p := &Parallel{Rounds: r.Range(150, 400)}
+		p := &Parallel{Rounds: g.rounds()}
 		for w, nw := 0, r.Range(3, 6); w < nw; w++ {
 			var qs []Query
 			for n := r.Range(2, 4); n > 0; n-- {
